@@ -1,8 +1,9 @@
 (* C16 — Message sets select exactly the messages RFC 3501 says, or the command fails.
    Property theorems only; every proof is `exact <lemma>` and is followed by Print Assumptions. *)
-From Coq Require Import List NArith Bool.
+From Coq Require Import List NArith ZArith Bool.
 From Coq Require Import Sorted.
 From Gluon Require Import Model.SeqSet Proofs.SeqSetProofs.
+From Gluon Require Import Gen.FactsUidRange Proofs.UidRangeCodeProofs.
 From Gluon Require Model.Responders Model.Session Proofs.SetProofs.
 Import ListNotations.
 Open Scope N_scope.
@@ -66,6 +67,34 @@ Print Assumptions C16_uid_no_duplicates.
 Theorem C16_uid_selected_exist : forall uids s l u, srt uids -> impl_uid uids s = Some l -> In u l -> In u uids.
 Proof. exact uid_selected_exist. Qed.
 Print Assumptions C16_uid_selected_exist.
+
+(* T1: the model above is the code. Gen/FactsUidRange.v is regenerated from internal/state/snapshot_messages.go on every
+   check (uidRange, getWithSeqID, existsWithSeqID translated statement by statement). For every view and every UID
+   interval lo < hi the translated index arithmetic followed by the Go slice list.msg[a:b] does not panic and yields
+   exactly what the model's uid_interval_msgs yields; the i-th message of the slice gets sequence number a+i+1; and the
+   model of getMessagesInSeqRange is the translated bounds checks. *)
+Theorem C16_uid_range_model_is_translated_code : forall uids lo hi, lo <= hi -> (lo =? hi) = false ->
+  uid_range_by_code uids lo hi = Some (uid_interval_msgs uids (lo, hi)).
+Proof. exact uid_range_code_is_model. Qed.
+Print Assumptions C16_uid_range_model_is_translated_code.
+
+Theorem C16_uid_range_seq_is_position : forall (len i1 i2 : Z) o1 o2 (i : Z),
+  uid_range_seq_code len i1 i2 o1 o2 i = (i1 + i + 1)%Z :> Z.
+Proof. exact uid_range_seq_is_position. Qed.
+Print Assumptions C16_uid_range_seq_is_position.
+
+Theorem C16_seq_interval_model_is_translated_code : forall cnt lo hi, 1 <= lo -> 1 <= hi ->
+  seq_interval_msgs cnt (lo, hi) =
+  if (lo =? hi) then (if get_with_seq_fails_code (Z.of_N cnt) (Z.of_N lo) then None else Some [lo])
+  else if exists_with_seq_fails_code (Z.of_N cnt) (Z.of_N lo) || exists_with_seq_fails_code (Z.of_N cnt) (Z.of_N hi)
+       then None else Some (interval_list lo hi).
+Proof. exact seq_interval_by_code. Qed.
+Print Assumptions C16_seq_interval_model_is_translated_code.
+
+Example C16_translated_code_example :
+  uid_range_by_code [2;5;6;9] 3 6 = Some [5;6] /\ uid_range_by_code [2;5;6;9] 3 100 = Some [5;6;9] /\
+  uid_range_by_code [2;5;6;9] 10 100 = Some [] /\ uid_range_by_code [2;5;6;9] 1 2 = Some [2].
+Proof. vm_compute. repeat split. Qed.
 
 (* non-vacuity: a view of 5 messages, set "2:4,*,1" ; UIDs with gaps, set "3:7,*" *)
 Example C16_seq_example :
